@@ -174,6 +174,13 @@ pub fn gen_state(r: &mut Rng, o: &GenOpts) -> PushState {
             s.configuration.min_random_float = x;
             s.configuration.max_random_float = y;
         }
+        if r.chance(1, 3) {
+            // an interval only a few ulps wide, far from zero: the half-open bound must still hold
+            let lo = *r.pick(&[1.0e7f32, 16777216.0, -16777220.0, 1.0, 1000.0, -3.0e8]);
+            let hi = f32::from_bits(if lo > 0.0 { lo.to_bits() + 1 + r.below(3) as u32 } else { lo.to_bits() - 1 - r.below(3) as u32 });
+            s.configuration.min_random_float = lo;
+            s.configuration.max_random_float = hi;
+        }
         s.configuration.max_points_in_random_expressions = *r.pick(&[25, 1, 2, 0, -7, 60, i32::MIN, i32::MAX]);
         s.configuration.new_erc_name_probability = *r.pick(&[0.001, 0.0, 0.5, 1.0]);
     }
